@@ -16,7 +16,7 @@ Capacity ==
   {[min |-> p[1], max |-> p[2], fails |-> f] :
       p \in Pools, f \in UNION {[1..k -> Fails] : k \in 1..GBurst}}
 
-MOps == {"fullA", "fullB", "incrNew", "incrRepl", "incrSal", "removeHas", "removeAbsent", "removeNone", "removeTwo",
+MOps == {"fullA", "fullB", "incrNew", "incrRepl", "incrReplNew", "incrSal", "removeHas", "removeAbsent", "removeNone", "removeTwo",
          "clear", "model1", "model2", "model3", "model4", "model9", "badfull", "badincr"}
 Manage == {[min |-> 1, max |-> 2, ops |-> s] : s \in UNION {[1..k -> MOps] : k \in 1..GOps}}
 
